@@ -197,6 +197,9 @@ class HierarchicalCache:
             return node
         if oid:
             self._set_oid(node, oid)
+            node = self._get_node(path=path)  # _set_oid replaces the node when its oid changes
+            if node is None:
+                return None
         if keep:
             old_metadata = node.metadata
             old_metadata.update(metadata)
